@@ -491,6 +491,15 @@ impl Check for TreeProp {
             scn.family = format!("history/{}", scn.family);
             return scn;
         }
+        // a share of the prefix-replay scenarios (a fresh seeded planner per run) draw their goal
+        // samples from the planner's own generator, with goal biases up to exactly 1: which
+        // words of the seeded stream are consumed, and when, then decides what is sampled
+        if !deep && rng.chance(0.25) {
+            scn.problems[0].goal.sampler = GoalSampler::Planner;
+            scn.planner.goal_bias = *rng.pick(&[1.0, 1.0, 0.5, 0.9, 0.05]);
+            scn.problems[0].goal.radius *= rng.range(1.0, 3.0);
+            scn.family = format!("{}+planner_goal_rng", scn.family);
+        }
         let n = if deep { self.depth(tier) * 6 } else { self.depth(tier) };
         let n = match &scn.calls[1] {
             // keep the affordable budget the base generator chose
@@ -878,6 +887,19 @@ impl TreeProp {
                 }
                 if let Some((gap, _)) = cx.ev.coverage_gap(&acc_iter, &ta0[na.1.unwrap()].0, &na.0) {
                     return Err(viol("C16", sig("added_without_validation"), format!("iteration {it}: the new edge has an unvalidated stretch of {gap}")));
+                }
+                if dgb == 0 {
+                    // "... and then tries to connect the other tree to the new node": an
+                    // iteration that extended the first tree and then neither grew the other
+                    // one nor had any state of a connect motion rejected (by the checker or by
+                    // the bounds) never tried — unless the call ended right there because the
+                    // start tree reached the goal by itself.
+                    let ended_in_success = i + 2 == px.snaps.len() && matches!(px.last.calls[px.solve_ci].res, Res::Path(_));
+                    let rejected = !convex || evs.iter().any(|e| matches!(e, Ev::Valid(_, false)));
+                    if !ended_in_success && !rejected {
+                        return Err(viol("C16", sig("connect_not_attempted"), format!("iteration {it}: the first tree was extended but the other tree neither grew nor had a connect motion rejected (no connect attempt toward the new node)")));
+                    }
+                    rep.probe("connect_rejected");
                 }
                 if dgb == 1 {
                     rep.probe("connect_both_grew");
